@@ -209,6 +209,8 @@ typedef struct pv_world {
     int kdf_protect;                /* C04: mprotect key page after writing */
     long fail_countdown;            /* >0: the k-th allocation request from now fails */
     uint64_t fail_mask; int fail_mask_n;
+    int reuse_mode;                 /* 1: the most recently freed block is handed out again by the next request of the same size (address reuse) */
+    void* cache_ptr; size_t cache_size;
     int yield_pct;                  /* C20: probability of sched_yield inside callbacks */
     pv_rng yield_rng;
     /* per-call log */
